@@ -1013,14 +1013,19 @@ func (e *Evaluator) evalStatement(stmt Statement) error {
 				}
 			}
 		case ValueObj:
-			// iterate the keys in sorted order so the result is deterministic
-			keys := make([]string, 0, len(*iterable.Value.Obj))
-			for k := range *iterable.Value.Obj {
+			// iterate the keys in sorted order so the result is deterministic.
+			// the object is looked at once, the body may reassign the variable
+			obj := *iterable.Value.Obj
+			keys := make([]string, 0, len(obj))
+			for k := range obj {
 				keys = append(keys, k)
 			}
 			sort.Strings(keys)
 			for _, k := range keys {
-				v := (*iterable.Value.Obj)[k]
+				v, present := obj[k]
+				if !present {
+					continue
+				}
 				if indexLocal != nil {
 					indexLocal.Value = v.Value
 				}
